@@ -16,6 +16,7 @@ import (
 	"strings"
 
 	"seehuhn.de/go/geom/matrix"
+	"seehuhn.de/go/postscript/cid"
 	"seehuhn.de/go/postscript/type1"
 	"seehuhn.de/go/sfnt/cff"
 	"seehuhn.de/go/sfnt/glyph"
@@ -2269,6 +2270,29 @@ func t2targeted(c *Ctx) []string {
 		}
 		out = append(out, t2plain(t2fromDeltas(mx, my, segs)))
 	}
+	// (f) "always ends the glyph": charstrings whose last byte before endchar is a DATA byte, in particular 0x0e:
+	// empty glyphs whose width operand's code ends in every byte value of interest, and glyphs ending with a mask
+	for v := -1200; v <= 1200; v++ {
+		code := t2num(int64(v)*65536, 0)
+		last := code[len(code)-1]
+		if last == 14 || last == 13 || last == 15 || v%97 == 0 {
+			c.Stat("t2enc.family", "empty glyph, width operand ending in "+fmt.Sprintf("%02x", last))
+			out = append(out, fmt.Sprintf("w=%d dw=%d nw=0 hs= vs= cmds=", v*t2scale, 5000*65536))
+		}
+	}
+	for _, un := range []int{14, 270, 3*65536 + 14, 1294 * 65536, -2*65536 + 14, 3*65536 + 13} {
+		c.Stat("t2enc.family", "empty glyph, 3-byte / 16.16 width operand")
+		out = append(out, fmt.Sprintf("w=%d dw=%d nw=0 hs= vs= cmds=", un*16, 5000*65536))
+	}
+	for b := 0; b < 256; b++ {
+		c.Stat("t2enc.family", "glyph ending with a mask")
+		kind := "h"
+		if b%5 == 0 {
+			kind = "k"
+		}
+		out = append(out, fmt.Sprintf("w=0 dw=0 nw=0 hs=%d,%d vs= cmds=m:%d,%d;l:%d,%d;%s:%02x", 10*t2scale, 20*t2scale,
+			5*t2scale, 6*t2scale, 50*t2scale, 60*t2scale, kind, b))
+	}
 	// (d) header: width default / explicit x number of stem pairs x mask first / no mask
 	for _, nh := range []int{0, 1, 23, 24, 25, 48} {
 		for _, nv := range []int{0, 1, 23, 24, 25, 48} {
@@ -2749,16 +2773,13 @@ func genT2cff(c *Ctx) {
 // interpreter on every charstring: the widths it finds must be the glyphs' widths.
 //   widths=<16.16 units,…> file=<hex of the written CFF>
 
-func t2widthFont(widths []int64) *cff.Font {
+func t2widthFont(widths []int64, nfd int, empty map[int]bool) *cff.Font {
 	font := &cff.Font{
 		FontInfo: &type1.FontInfo{
 			FontName:   "W",
 			FontMatrix: matrix.Matrix{0.001, 0, 0, 0.001, 0, 0},
 		},
-		Outlines: &cff.Outlines{
-			Private:  []*type1.PrivateDict{{BlueScale: 0.039625, BlueShift: 7, BlueFuzz: 1}},
-			FDSelect: func(glyph.ID) int { return 0 },
-		},
+		Outlines: &cff.Outlines{},
 	}
 	for i, w := range widths {
 		name := ".notdef"
@@ -2766,18 +2787,37 @@ func t2widthFont(widths []int64) *cff.Font {
 			name = fmt.Sprintf("g%d", i)
 		}
 		g := cff.NewGlyph(name, float64(w)/65536)
-		g.MoveTo(10, 10)
-		g.LineTo(110, 20)
-		g.LineTo(60, 120)
+		if !empty[i] {
+			g.MoveTo(10, 10)
+			g.LineTo(110, 20)
+			g.LineTo(60, 120)
+		}
 		font.Glyphs = append(font.Glyphs, g)
 	}
-	font.Encoding = cff.StandardEncoding(font.Glyphs)
+	if nfd == 0 {
+		font.Private = []*type1.PrivateDict{{BlueScale: 0.039625, BlueShift: 7, BlueFuzz: 1}}
+		font.FDSelect = func(glyph.ID) int { return 0 }
+		font.Encoding = cff.StandardEncoding(font.Glyphs)
+	} else {
+		// CID-keyed: nfd Font DICTs, glyph g in Font DICT g mod nfd
+		for i := 0; i < nfd; i++ {
+			font.Private = append(font.Private, &type1.PrivateDict{BlueScale: 0.039625, BlueShift: 7, BlueFuzz: 1,
+				StdHW: float64(20 + i)})
+			font.FontMatrices = append(font.FontMatrices, matrix.Identity)
+		}
+		for i := range widths {
+			font.GIDToCID = append(font.GIDToCID, cid.CID(i))
+		}
+		k := nfd
+		font.FDSelect = func(g glyph.ID) int { return int(g) % k }
+		font.ROS = &cid.SystemInfo{Registry: "Adobe", Ordering: "Identity", Supplement: 0}
+	}
 	return font
 }
 
-func t2writeWidthFont(widths []int64) ([]byte, error) {
+func t2writeWidthFont(widths []int64, nfd int, empty map[int]bool) ([]byte, error) {
 	buf := &bytes.Buffer{}
-	err := t2widthFont(widths).Write(buf)
+	err := t2widthFont(widths, nfd, empty).Write(buf)
 	return buf.Bytes(), err
 }
 
@@ -2789,7 +2829,15 @@ func init() {
 			fmt.Sscan(p, &w)
 			ws = append(ws, w)
 		}
-		data, err := t2writeWidthFont(ws)
+		empty := map[int]bool{}
+		for _, i := range f.Ints("e") {
+			empty[i] = true
+		}
+		nfd := 0
+		if f["nfd"] != "" {
+			nfd = f.Int("nfd")
+		}
+		data, err := t2writeWidthFont(ws, nfd, empty)
 		if err != nil {
 			return "writeerr:" + strings.ReplaceAll(err.Error(), " ", "_")
 		}
@@ -2803,19 +2851,22 @@ func init() {
 
 func genT2font(c *Ctx) {
 	r := c.Rng
-	emit := func(kind string, ws []int64) {
+	emitX := func(kind string, ws []int64, nfd int, empties []int) {
 		c.Stat("t2font.family", kind)
 		c.Stat("t2font.glyphs", bucket(len(ws)))
-		units := make([]int64, len(ws))
+		c.Stat("t2font.font-dicts", fmt.Sprint(nfd))
 		parts := make([]string, len(ws))
 		for i, w := range ws {
-			units[i] = w
 			parts[i] = fmt.Sprint(w)
+		}
+		em := map[int]bool{}
+		for _, i := range empties {
+			em[i] = true
 		}
 		var data []byte
 		msg := guard(func() string {
 			var err error
-			data, err = t2writeWidthFont(units)
+			data, err = t2writeWidthFont(ws, nfd, em)
 			if err != nil {
 				return "writeerr"
 			}
@@ -2824,8 +2875,9 @@ func genT2font(c *Ctx) {
 		if msg != "" {
 			c.Stat("t2font.write-failed", msg)
 		}
-		c.Case(Direct, "t2.fontw", "widths="+strings.Join(parts, ",")+" file="+hx(data), true)
+		c.Case(Direct, "t2.fontw", fmt.Sprintf("widths=%s nfd=%d e=%s file=%s", strings.Join(parts, ","), nfd, ints(empties), hx(data)), true)
 	}
+	emit := func(kind string, ws []int64) { emitX(kind, ws, 0, nil) }
 	u := func(v int) int64 { return int64(v) * 65536 }
 	rep := func(w int64, n int) []int64 {
 		out := make([]int64, n)
@@ -2850,8 +2902,43 @@ func genT2font(c *Ctx) {
 	emit("most frequent width 0, explicit 107", []int64{0, 0, 0, u(107)})
 	emit("most frequent width 0, explicit -107", []int64{0, 0, 0, u(-107)})
 	emit("nominal would be 0", []int64{u(500), u(500), u(-107), u(107)})
+	// empty glyphs (space): the charstring is "width endchar"; sweep the width operand so that its encoding ends in
+	// every possible byte, in particular 0x0e (122 -> f7 0e, 378, 634, -122, …)
+	for d := -400; d <= 400; d++ {
+		emitX("empty glyph, width sweep", []int64{u(600), u(600), u(600), u(600 + d), u(900)}, 0, []int{3})
+	}
+	for _, fr := range []int64{14, 270, 65536*3 + 14, -65536*2 + 14} {
+		emitX("empty glyph, 16.16 width", []int64{u(600), u(600), u(600), u(500) + fr, u(900)}, 0, []int{3})
+	}
+	emitX("all glyphs empty", []int64{u(500), u(500), u(622)}, 0, []int{0, 1, 2})
+	// CID-keyed fonts: 2-3 Font DICTs, glyphs spread over all of them
+	for _, nfd := range []int{1, 2, 3} {
+		emitX("CID-keyed", []int64{u(600), u(600), u(600), u(600), u(450), u(725), u(810), u(333), u(600), u(600), u(512) + 32768, u(278)}, nfd, nil)
+		emitX("CID-keyed, all default", rep(u(500), 7), nfd, nil)
+		emitX("CID-keyed, empty glyphs", []int64{u(600), u(600), u(722), u(600), u(478)}, nfd, []int{2, 4})
+	}
 	// random multisets
 	for i := 0; i < c.N; i++ {
+		if i%3 == 2 {
+			n := r.Range(2, 9)
+			ws := make([]int64, n)
+			base := r.Range(0, 1200)
+			for j := range ws {
+				if r.Bool() {
+					ws[j] = u(base)
+				} else {
+					ws[j] = u(r.Range(0, 2000))
+				}
+			}
+			var em []int
+			for j := range ws {
+				if r.Chance(1, 4) {
+					em = append(em, j)
+				}
+			}
+			emitX("random CID-keyed", ws, r.Range(2, 3), em)
+			continue
+		}
 		n := r.Range(1, 7)
 		base := r.Range(0, 1200)
 		ws := make([]int64, n)
